@@ -344,6 +344,7 @@ class Sym(numbers.Real):
 
 
 ALLOW_CONST_FLOAT = False
+NORMALISE_FIRST = True
 _LOOSE_DENOMS = []
 
 
@@ -686,6 +687,17 @@ def prove_eq(lhs, rhs, pre=(), pc=(), denoms=(), timeout_ms=60000, crossmult_fal
     if not crossmult_fallback:
         return prove(a.t == b.t, pre, pc, denoms, timeout_ms)
     spent = 0.0
+    # z3's rewriter first: sum-of-monomials normal form of lhs - rhs (decides linear / polynomial identities
+    # without search; valid unconditionally when no division by a non-constant occurs in the terms)
+    if NORMALISE_FIRST and not collect_denominators([a.t, b.t]):
+        t0 = time.time()
+        try:
+            d = z3.simplify(a.t - b.t, som=True, sort_sums=True)
+            if z3.is_rational_value(d) and d.numerator_as_long() == 0:
+                return Verdict('unsat', None, time.time() - t0, 'normalised')
+        except z3.Z3Exception:
+            pass
+        spent += time.time() - t0
     v = prove(a.t == b.t, pre, pc, denoms, min(timeout_ms, 4000))
     spent += v.seconds
     if v.status != 'unknown':
